@@ -19,7 +19,7 @@ const STUB: [&str; 4] = [
 ];
 
 pub fn all() -> Vec<Property> {
-    vec![c01(), c02(), c06(), c07(), c08(), c09(), c10(), c11(), c12(), c13(), c14(), c15(), c16(), c17(), c18(), c19()]
+    vec![c01(), c02(), c04(), c06(), c07(), c08(), c09(), c10(), c11(), c12(), c13(), c14(), c15(), c16(), c17(), c18(), c19(), c20()]
 }
 
 fn c06() -> Property {
@@ -261,6 +261,92 @@ fn c19() -> Property {
         real_components: REAL.to_vec(),
         stub_components: STUB.to_vec(),
         expected_probes: vec!["honest-client-accepted", "dishonest-client-refused", "honest-server-accepted", "dishonest-server-refused", "valid-credentials-connected", "invalid-credentials-refused-on-both-sides"],
+    }
+}
+
+fn c04() -> Property {
+    Property {
+        id: "C04",
+        level: "fault_enumeration",
+        variants: vec![
+            Variant {
+                name: "corruption-in-transit",
+                weight: 3,
+                make: || Box::pin(scen::codec::run_c04_corruption()),
+                max_steps: 3_000_000,
+                cases_per_seed: 1,
+                note: "a valid encoding (value tree, performative, SASL frame body, message) corrupted 1-3 times in transit (size / count / format-code fields, string bodies, bit flips, nesting up to 8000 deep) and possibly cut, decoded as every public type through the slice reader and the simulated stream",
+            },
+            Variant {
+                name: "cut-at-every-offset",
+                weight: 1,
+                make: || Box::pin(scen::codec::run_c04_cut_sweep()),
+                max_steps: 3_000_000,
+                cases_per_seed: scen::codec::CUT_MAX,
+                note: "per seed one valid encoding, cut (EOF and hard error) at every offset",
+            },
+            Variant {
+                name: "all-short-strings",
+                weight: 1,
+                make: || Box::pin(scen::codec::run_c04_short_strings()),
+                max_steps: 3_000_000,
+                cases_per_seed: 257,
+                note: "every byte string of length <= 2 and a 16x16 grid of length-3 strings per first byte",
+            },
+        ],
+        quick_runs: 5 * 700 * 20,
+        thorough_runs: 5 * 700 * 2000,
+        rule: "corruption variant: one run = one generated encoding x 1-3 structure-aware corruptions (+ optional cut) x seeded chunking and interrupted reads; cut variant: one run per (seed, offset 0..700); short-string variant: one run per first byte (257 runs cover all strings of length <= 2 exactly once per block); blocks of 700 run indices alternate between the variants 3:1:1; distinct = distinct event-log hash",
+        assumptions: vec![
+            "allocation is measured by a counting global allocator around each decode call; 'in proportion' is peak <= 160 x input length + 16 MiB (the crate caps one array at 65536 elements of 72 bytes before it has seen its body)",
+            "reads are bounded by 4 x (input length + 2) + 4 x interruptions + 64 calls",
+            "stack exhaustion shows as the death of the worker process (2 MiB stack, as a tokio worker thread)",
+        ],
+        real_components: vec!["serde_amqp (slice reader, io reader, Value, LazyValue, size calculator)", "fe2o3-amqp-types performatives and message", "fe2o3-amqp frame decoders (AMQP and SASL)"],
+        stub_components: vec!["simulator-owned std::io::Read (chunking, interrupted reads, cut, hard error, corruption in transit)", "independent encoder (refcodec) and field scanner"],
+        expected_probes: vec!["value-decoded", "value-rejected", "short-strings-block-done"],
+    }
+}
+
+fn c20() -> Property {
+    Property {
+        id: "C20",
+        level: "fault_enumeration",
+        variants: vec![
+            Variant {
+                name: "trailing-bytes-and-chunk-sizes",
+                weight: 3,
+                make: || Box::pin(scen::codec::run_c20_trailing()),
+                max_steps: 3_000_000,
+                cases_per_seed: 65,
+                note: "per seed one valid encoding followed by 0-39 arbitrary bytes, read through the slice reader and through the simulated stream in chunks of every size 1..64 and in seeded chunks",
+            },
+            Variant {
+                name: "typed-values",
+                weight: 1,
+                make: || Box::pin(scen::codec::run_c20_typed()),
+                max_steps: 3_000_000,
+                cases_per_seed: 1,
+                note: "performatives: size calculator vs encoder, value tree vs bytes",
+            },
+            Variant {
+                name: "plain-typed-values",
+                weight: 1,
+                make: || Box::pin(scen::codec::run_c20_plain_typed()),
+                max_steps: 3_000_000,
+                cases_per_seed: 1,
+                note: "tuples, vectors, options, maps of plain Rust types: size calculator, both readers, value tree",
+            },
+        ],
+        quick_runs: 5 * 65 * 20,
+        thorough_runs: 5 * 65 * 2000,
+        rule: "trailing variant: one run per (seed = generated value and trailing bytes, chunk size in {seeded, 1..64}); typed variant: one generated performative per run; distinct = distinct event-log hash",
+        assumptions: vec![
+            "the generated value encodings come from the harness's own encoder (including the wide, non-canonical forms); the crate's own encoder is exercised for what it decodes from them",
+        ],
+        real_components: vec!["serde_amqp (slice reader, io reader, size calculator, value tree)", "fe2o3-amqp-types performatives", "fe2o3-amqp AMQP frame decoder"],
+        stub_components: vec!["simulator-owned std::io::Read (chunk sizes)", "independent encoder (refcodec)"],
+        expected_probes: vec!["trailing-bytes-left-in-place", "plain-typed-agreement-checked", "payload-after-performative-checked"],
     }
 }
 
